@@ -355,6 +355,23 @@ class Model:
         for mod in self.modules.values():
             yield from mod.funcs.values()
 
+    def bind(self, func, call):
+        """{parameter name: argument expression} of a call that certainly refers to a package function (positional and
+        keyword arguments bound by the callee's signature), or None."""
+        from . import normalize
+        target, skip = normalize._resolve_callee(self, func, call)
+        if target is None or any(isinstance(a, ast.Starred) for a in call.args):
+            return None
+        a = target.node.args
+        params = [x.arg for x in a.posonlyargs + a.args][skip:]
+        out = dict(zip(params, call.args))
+        if len(call.args) > len(params) and a.vararg is None:
+            return None
+        for k in call.keywords:
+            if k.arg is not None:
+                out[k.arg] = k.value
+        return out
+
     def fully_inlined(self, func):
         """A private helper no normalised function of the package refers to any more (every call was spliced into its
         caller by the normaliser, no other reference to the name exists): its behaviour is entirely part of the callers'
